@@ -49,7 +49,7 @@ class _Instr(ast.NodeTransformer):
         if isinstance(node.ctx, ast.Load):
             self.k += 1
             return ast.copy_location(
-                ast.Call(func=ast.Name(id='__u', ctx=ast.Load()),
+                ast.Call(func=ast.Name(id='_uU', ctx=ast.Load()),
                          args=[ast.Constant(self.k), node], keywords=[]), node)
         return node
 
@@ -72,6 +72,13 @@ def behaviour(src):
     ast.fix_missing_locations(tree)
     log = []
 
+    ordinals = {}
+
+    def ordinal(c):
+        # classes are identified by the order in which the run first shows them (the same in
+        # the original and the renamed program), never by their name
+        return ordinals.setdefault(id(c), len(ordinals))
+
     def tok(v):
         if isinstance(v, int):
             return v
@@ -79,17 +86,19 @@ def behaviour(src):
         if code is not None:
             return ('function', code.co_firstlineno)
         if isinstance(v, type):
-            return ('class', getattr(v, '__firstlineno__', None) or len(vars(v)))
+            return ('class', ordinal(v))
+        if type(v).__module__ == '__c05__':
+            return ('inst', ordinal(type(v)))
         return type(v).__name__
 
-    def __u(k, v):
+    def _uU(k, v):
         log.append((k, tok(v)))
         return v
     import sys
     old = sys.getrecursionlimit()
     sys.setrecursionlimit(150)
     try:
-        exec(compile(tree, '<c05>', 'exec'), {'__u': __u, '__name__': '__c05__'})
+        exec(compile(tree, '<c05>', 'exec'), {'_uU': _uU, '__name__': '__c05__'})
         end = None
     except RecursionError:
         end = 'RecursionError'
@@ -132,6 +141,17 @@ def shape_of(flat, occs, u):
     for o in mine:
         if o[1] == R['param'] and any(b[1] in (R['bind'], R['def']) and b[2] == o[2] for b in mine):
             return 'parameter-rebound-in-function-body'
+    # root causes shared with C03 (goto consults a class body Python does not): a use of the name
+    # in a class body or comprehension nested (through class bodies / comprehensions only) in a
+    # class that binds the name
+    for o in mine:
+        if o[1] != R['use']:
+            continue
+        t = o[2]
+        while t != 0 and flat['scopes'][t][0] in (K['class'], K['comp']):
+            t = flat['scopes'][t][1]
+            if flat['scopes'][t][0] == K['class'] and any(b[2] == t and b[1] in (R['bind'], R['def']) for b in mine):
+                return 'use-nested-in-class-body-that-binds-the-name'
     for si, sc in enumerate(flat['scopes']):
         if sc[0] == K['class'] and any(o[2] == si and o[1] in (R['bind'], R['def']) for o in mine):
             first_bind = min(i for i, o in enumerate(flat['occs'])
@@ -329,7 +349,16 @@ def run(ctx):
                                    short({'source': out['src'], 'occ': occs[u], 'jedi': new_code, 'model': model_text}, 1500))
     else:
         ctx.notes.append('model did not build: correspondence skipped, oracle only')
+    # ---- attribute programs: beyond the Scopes fragment, judged by the direct oracle only
+    seeds = ['%s-attr-%d' % (ctx.seed, i) for i in range(ctx.size(12, 400))]
+    for recs in common.parallel_map('props.c05', 'analyse_attr', seeds):
+        for rec in recs:
+            ctx.count('attr', (rec['case']['source'], rec['case']['line'], rec['case']['column']), nontrivial=True,
+                      sample=rec['case'])
+            for what, exp, obs in rec['fails']:
+                ctx.fail('oracle', what, rec['case'], expected=exp, observed=obs, how=how)
     ctx.obligations['assumptions'] = [
+        'stream attr (attributes whose spelling coincides with parameters/locals) has no Lean model: direct oracle only',
         'fragment and flat table as for C03 (harness/gen/scopes.py); the text-level rename model is '
         '"replace the value of exactly the leaves in refs" which Props.C05.render_rename proves equal to parso\'s render',
         'behaviour = event log of an AST-instrumented execution (every name read, unique tokens for assigned constants, '
@@ -364,3 +393,109 @@ def replay(ctx, payload):
         print(f.get_new_code())
     print('expected:', payload.get('expected'), '\nobserved at record time:', payload.get('observed'))
     return 0
+
+
+# ---------------------------------------------------------------------------- attribute programs (oracle only)
+
+ATTR_POOL = ['total', 'step', 'count', 'item']
+
+
+def gen_attr_program(rng):
+    """small class-based programs in which attribute names, parameters and locals share spellings"""
+    a1, a2 = rng.sample(ATTR_POOL, 2)
+    p1 = rng.choice([a1, a1, rng.choice(ATTR_POOL)])       # constructor parameter, often spelled like the attribute
+    p2 = rng.choice([a2, rng.choice(ATTR_POOL)])
+    if p2 == p1:
+        p2 = next(x for x in ATTR_POOL if x != p1)
+    loc = rng.choice([a1, a2, rng.choice(ATTR_POOL)])      # a local in a method
+    arg = rng.choice([a1, rng.choice(ATTR_POOL)])          # a parameter of a module-level function
+    lines = [
+        'class Acc:',
+        '    def __init__(self, %s, %s):' % (p1, p2),
+        '        self.%s = %s' % (a1, p1),
+        '        self.%s = %s' % (a2, p2),
+        '    def add(self, n):',
+        '        %s = self.%s + n' % (loc, a1),
+        '        self.%s = %s' % (a1, loc),
+        '        return %s + self.%s' % (loc, a2),
+    ]
+    if rng.random() < 0.5:
+        lines += ['class Other:', '    %s = 5' % a1, '    def get(self):', '        return self.%s' % a1]
+        other = True
+    else:
+        other = False
+    lines += [
+        'def use(%s):' % arg,
+        '    box = Acc(%s, 2)' % arg,
+        '    %s = box.%s' % (rng.choice([a1, 'got']), a1),
+        '    return box.add(3) + box.%s' % a2,
+        'result = use(4)',
+    ]
+    if other:
+        lines.append('other = Other().get()')
+    return '\n'.join(lines) + '\n'
+
+
+def attr_shape(src, name):
+    """root-cause class of a failure on an attribute program"""
+    tree = ast.parse(src)
+    for fn in ast.walk(tree):
+        if isinstance(fn, ast.FunctionDef) and name in [a.arg for a in fn.args.args]:
+            for n in ast.walk(fn):
+                if isinstance(n, ast.Name) and n.id == name and isinstance(n.ctx, ast.Store):
+                    return 'parameter-rebound-in-function-body'
+    return 'attribute-program'
+
+
+def analyse_attr(seed):
+    import io
+    import random
+    import tokenize
+    import keyword
+    import jedi
+    rng = random.Random(seed)
+    out = []
+    project = jedi.Project(EMPTY_PROJECT)
+    for _ in range(3):
+        src = gen_attr_program(rng)
+        base = behaviour(src)
+        if base[1] is not None:
+            continue
+        toks = [(t.start[0], t.start[1], t.string) for t in tokenize.generate_tokens(io.StringIO(src).readline)
+                if t.type == tokenize.NAME and not keyword.iskeyword(t.string) and t.string not in ('self',)
+                and not (t.string.startswith('__') and t.string.endswith('__'))]
+        refs = {}
+        for (l, c, s) in toks:
+            try:
+                rs = jedi.Script(src, project=project).get_references(l, c, scope='file')
+                refs[(l, c)] = sorted((d.line, d.column) for d in rs)
+            except Exception as e:
+                refs[(l, c)] = None
+        for (l, c, s) in toks:
+            rs = refs[(l, c)]
+            if rs is None or any(r[0] is None for r in rs):
+                continue
+            case = {'source': src, 'line': l, 'column': c, 'new_name': FRESH, 'shape': attr_shape(src, s)}
+            rec = {'case': case, 'fails': []}
+            for r in rs:
+                if r in refs and refs[r] is not None and refs[r] != rs:
+                    rec['fails'].append(('references are not a partition: asking from a reported occurrence gives another set',
+                                         rs, {'from': list(r), 'refs': refs[r]}))
+                    break
+            try:
+                ref = jedi.Script(src, project=project).rename(l, c, new_name=FRESH)
+                files = ref.get_changed_files()
+                new_code = list(files.values())[0].get_new_code() if files else src
+            except Exception as e:
+                out.append(rec)
+                continue
+            expected = replace_at(src, rs, s, FRESH)
+            if new_code != expected:
+                rec['fails'].append(('rename does not rewrite exactly the reported references', expected, new_code))
+            else:
+                nb = behaviour(new_code)
+                if nb != base:
+                    rec['fails'].append(('renamed program behaves differently', {'old': short(base, 300)},
+                                         {'new_code': new_code, 'new': short(nb, 300)}))
+            out.append(rec)
+    return out
